@@ -30,7 +30,7 @@ import numpy as np
 from .. import common as C
 
 PROP = "C19"
-GEN_REGIONS: List[str] = ["Rms", "DfWrappers"]
+GEN_REGIONS: List[str] = ["Rms", "DfWrappers", "GlobalState"]
 THEOREMS = {
     "SpecKitV.Lemmas.Rms": ["trapz_sq_nonneg", "trapz_append", "integralRms_spec", "integralRms_none", "rms_monotone",
                             "rms_additive_at_grid", "rms_superadditive", "detrend0_sum_zero", "detrend0_const", "detrend0_idem"],
@@ -50,6 +50,9 @@ THEOREMS = {
     "SpecKitV.Props.DfWrappersGen": ["gen_df_detrend_eq_model", "gen_df_detrend_spec", "gen_df_detrend_input_untouched", "gen_df_detrend_rejects_iff",
                                      "gen_df_detrend_column_props", "gen_df_detrend_column_order0", "gen_df_detrend_defaults",
                                      "DfAux.col?_setCol", "DfAux.names_setCol"],
+    # no state outlives a call in the files this property is anchored in (no module/class-level containers, memoisers, mutable defaults) and the
+    # decorators are exactly the audited ones (region GlobalState, re-scanned from the current source each run)
+    "SpecKitV.Props.GlobalStateGen": ["GlobalStateGen.gen_globalState_dsp"],
 }
 CONTRACTS = ["np.polyfit(t, x, deg) returns the least-squares polynomial of degree deg on the abscissae t = 0..len-1 (orders >= 1 of "
              "polynomial_detrend are not modelled beyond this contract: the projection facts are proved for ANY orthonormal basis of the "
